@@ -35,7 +35,7 @@ PARTIAL["C10"] = "proved for all inputs: the loader Service.__init__ reports exa
 PARTIAL["C11"] = "proved for all inputs: the ten ClientServiceState flag helpers (set/clear/test exactly one bit), the server-state resynchronisation (touches only the two upload flags), and the synchronous client handlers handle_create_key / handle_encrypt_database / handle_upload_config_echo / handle_upload_encrypted_database_echo over a ghost client disk: exact prerequisite guards, a refused operation changes neither the persisted state nor any file, exactly one flag changes on success and the state record is rewritten, the key file is written only where none existed and no other handler touches it; trusted: client FileManager functions (D1 model), lazy loaders, the scheme calls; bounded stand-in: client operation histories against the 5-flag reference model with a live loopback server (including the asynchronous upload / search operations and handle_create_config), key write-once on the real files, rejected configurations"
 PARTIAL["C13"] = "proved for all inputs: the server handlers keep mem.state == recorded state and write config before the state record (contracts over the ghost disk); the client resynchronisation recovers both upload flags from the init echo; bounded stand-in: every file-system mutation of the seven persisting steps, kill before/after, restart, finish the workflow (in-process kill simulation)"
 PARTIAL["C09"] = "proved for all inputs: server handlers store exactly the received bytes and report/guard by the recorded state; client resynchronisation; bounded stand-in: the documented workflow over loopback websockets for all nine schemes with client re-creation and server restarts; the end-to-end composition lemma is not mechanised"
-PARTIAL["C19"] = "proved for all array lengths, item sizes, chunk sizes and indices over the ghost file system (D2): index -> (file, offset) mapping and lazy file cache, int reads/writes with negative indices against the abstract view (a list of left-zero-padded items; unwritten regions read as zeros), slice reads with any start/stop/step, iteration, element deletion and clear (zero fill), exact exception conditions with no effect on any file, create/reopen through the meta file, typestate closed => every operation raises ValueError, only the array's own chunk files are ever created or changed, client lemma write->close->reopen; bounded stand-in only: slice assignment with rollback, slice deletion, membership, from_list, release, and mixed operation histories against a list model"
+PARTIAL["C19"] = "proved for all array lengths, item sizes, chunk sizes, indices and slices over the ghost file system (D2): index -> (file, offset) mapping and lazy file cache, int reads/writes with negative indices against the abstract view (a list of left-zero-padded items; unwritten regions read as zeros), slice reads, slice assignment (element-wise up to the shorter of slice and values, never resizing) WITH ROLLBACK -- a refused item in the middle of a slice assignment leaves every item as it was --, element and slice deletion and clear (zero fill), iteration, exact exception conditions with no effect on any file, create/reopen through the meta file, typestate closed => every operation raises ValueError, only the array's own chunk files are ever created or changed, client lemmas write->close->reopen, clear, failed write, failed slice write; bounded stand-in only: membership, from_list, release, non-bytes items inside a slice assignment, and mixed operation histories against a list model"
 PARTIAL["C20"] = "proved for all inputs over the ghost file system (D2) and pickle round trip (P1): every PickledDict operation equals dict's and touches no file; sync/close leave exactly pickle(contents) in the file and install the closed marker (typestate); open recovers the contents; from_dict copies; create on an existing / open on a missing path refuse; every operation on a closed dictionary raises ValueError; client lemmas close->reopen, sync->open, from_dict independence, close twice; bounded stand-in only: DBMDict / BytesShelf (one session) and mixed operation histories against a dict model"
 
 SCHEME_CLASSES = [("schemes/CJJ14/PiBas/construction.py", "PiBas"), ("schemes/CJJ14/PiPack/construction.py", "PiPack"),
